@@ -81,6 +81,29 @@ pub struct Block {
     _transactions: Vec<Transaction>,
 }
 
+#[cfg(feature = "verif-hooks")]
+impl Block {
+    /// Verification hook: the block's hash.
+    pub fn verif_hash(&self) -> &BlockHash {
+        &self.hash
+    }
+
+    /// Verification hook: the block's parent.
+    pub fn verif_parent(&self) -> BlockId {
+        (self.parent, self.parent_hash.clone())
+    }
+
+    /// Verification hook: the block's slot.
+    pub fn verif_slot(&self) -> Slot {
+        self._slot
+    }
+
+    /// Verification hook: the decoded transactions of the block.
+    pub fn verif_transactions(&self) -> &[Transaction] {
+        &self._transactions
+    }
+}
+
 /// Dummy transaction containing payload bytes.
 ///
 /// A transaction cannot hold more than [`MAX_TRANSACTION_SIZE`] payload bytes.
